@@ -17,6 +17,18 @@ claimed={
  "C09": dict(level="model_checking", engine="vsched", design="7 C09", technique=E1,
    text="For 24 scenarios (8 histories x 3 delivery modes) all schedules of reader, writer and terminal within 2 (thorough 3) deviations are executed on the real connection code; every Message kept from a read callback is compared with its snapshot at every later callback and at quiescence, replies and reassembled bodies with the reference computed from the snapshots.",
    note="Same trusted base as C06."),
+ "C11": dict(level="model_checking", engine="vsched", design="7 C11", technique=E1+"; each execution's join/leave/route history checked for linearizability with porcupine",
+   text="8 (thorough 10) registry skeletons (duplicate-key connect after/racing the owner's join, close then reconnect, close racing a duplicate, two keys, commands racing / following a leave, absent key) are executed under all schedules within 2 (thorough 3) deviations on the real sessionManager and connection code; the call/return history of join, leave and command routing is checked against a sequential key->connection map with porcupine, refused sockets must be closed, callbacks are counted and the owner's traffic must stay answered.",
+   note="Operation intervals are derived from callbacks and enlarged where the call instant is not observable (sound). Commands whose caller never returns belong to C13."),
+ "C12": dict(level="model_checking", engine="vsched", design="7 C12", technique=E1,
+   text="1..2 (thorough 3) concurrent SendActiveMessage callers, one or two scripted terminals with 7 response behaviours (in order, reverse, only the second, duplicated, unknown serial, never, late), heartbeat/location noise and an absent key; every schedule within 2 (thorough 3) deviations, timers being scheduler events. Each caller must get exactly the response echoing its own frame's serial or a timeout; its frame must be on its terminal's socket exactly once with a fresh serial; noise must still be answered.",
+   note="No wall clock: a timeout is admissible whenever a timer may fire; in executions without early timers an answered command must see its answer. Serial wrap between outstanding commands is not reachable within the bounds."),
+ "C13": dict(level="model_checking", engine="vsched", design="7 C13", technique=E1+" with disconnect/reset/write-failure injection at every script point",
+   text="The terminal closes or resets before join, after join, after k commands were written, after answering all or some, or never answers, with k=0..2 (thorough 0..5) queued/outstanding commands and write failures as a socket answer; every schedule within 2 (thorough 3) deviations. No goroutine may panic and at quiescence every caller must have returned.",
+   note="'Within its timeout plus slack' is decided as eventual return in every maximal execution with timers as events."),
+ "C18": dict(level="model_checking", engine="vsched", design="7 C18", technique=E1+", every explored schedule executed under the Go race runtime with only the program's own happens-before edges visible",
+   text="The scenario families of C06/C09/C11/C12/C13 are explored in the -race build with 1 (thorough 2) deviations; token hand-offs are hidden from the race runtime (RaceDisable) and exactly the Go-memory-model edges of channel operations, sync.Once and go statements are re-created, so each schedule is checked for happens-before races although threads never overlap physically. An idiom corpus (race-free idioms silent, seeded races reported) runs first as a self-test.",
+   note="The race runtime can miss a race (4 shadow cells, report de-duplication, incidental sync.Pool edges inside fmt), never invent one. Reports without a repository frame, or raised by a runtime helper called from a shim, abort the check as broken."),
  "C17": dict(level="exploration", engine="venum", design="7 C17", technique=E2,
    text="Packets from a reference encoder (all 16 data types x 16 sub-package marks x PT/M/attr menus x payload lengths around 0, 950 and 65535), all sequences of 1..2 (thorough 3) packets from a 29-packet menu and every prefix of them, plus arbitrary short strings, are decoded from the front with a fresh and with a reused Packet and compared field by field with a reference reader; truncations must be classified short/unqualified.",
    note="Trusts harness/ref/rtp.go (JT/T 1078 table 19)."),
